@@ -27,9 +27,13 @@ type fieldSpec struct {
 	Pol  int    `json:"pol"`
 }
 
+// c16Extra: options of the calls besides the policies (a small MaxIdx or EnableNumKeys make
+// numeric names named settings)
+var c16Extra []ucfg.Option
+
 func c16Run(ta, tb map[string]interface{}, pol int, specs []fieldSpec) (Case, bool) {
 	p := policyOpts[pol]
-	opts := []ucfg.Option{ucfg.PathSep(".")}
+	opts := append([]ucfg.Option{ucfg.PathSep(".")}, c16Extra...)
 	if p.opt != nil {
 		opts = append(opts, p.opt)
 	}
@@ -47,7 +51,7 @@ func c16Run(ta, tb map[string]interface{}, pol int, specs []fieldSpec) (Case, bo
 		opts = append(opts, o)
 		coqSpecs = append(coqSpecs, fmt.Sprintf("(%s, %d%%N)", coqStr(s.Path), f.h))
 	}
-	dst, err := ucfg.NewFrom(ta)
+	dst, err := ucfg.NewFrom(ta, c16Extra...)
 	if err != nil {
 		return Case{}, false
 	}
@@ -119,6 +123,31 @@ func genC16(g *Gen) {
 			c.Tags = append(c.Tags, "corpus")
 			g.Add(c)
 		}
+	}
+	// named settings whose names are numbers (a small MaxIdx, or EnableNumKeys for a one-segment
+	// name), addressed by a per-field policy
+	for i := 0; i < 8; i++ {
+		inner := func(v interface{}) map[string]interface{} {
+			return map[string]interface{}{"l": []interface{}{v}, "m": []interface{}{v}}
+		}
+		var ta, tb map[string]interface{}
+		var path string
+		if i%2 == 0 {
+			c16Extra = []ucfg.Option{ucfg.MaxIdx(5)}
+			ta = map[string]interface{}{"a": map[string]interface{}{"7": inner("a")}, "x": "v"}
+			tb = map[string]interface{}{"a": map[string]interface{}{"7": inner("b")}}
+			path = "a.7.l"
+		} else {
+			c16Extra = []ucfg.Option{ucfg.EnableNumKeys(true)}
+			ta = map[string]interface{}{"7": inner("a"), "x": "v"}
+			tb = map[string]interface{}{"7": inner("b")}
+			path = "7.l"
+		}
+		if c, ok := c16Run(ta, tb, []int{0, 2, 3}[r.Intn(3)], []fieldSpec{{Path: path, Pol: 1 + r.Intn(3)}}); ok {
+			c.Tags = append(c.Tags, "numeric-name")
+			g.Add(c)
+		}
+		c16Extra = nil
 	}
 	// a 3-letter alphabet so that names repeat at different depths
 	tc := TreeCfg{Keys: []string{"a", "l", "x"}, MaxDepth: 4, MaxWidth: 3, PNil: 1, PEmpty: 1}
